@@ -162,6 +162,21 @@ def core_grammar(dialect: str = "", comments: bool = False, time_formats: bool =
         A("acc.bracket", 1, "{expr}[1]"),
         A("acc.dot", 1, "{expr}.f"),
         A("fn.current_date", 1, "CURRENT_DATE"),
+        # syntactic forms with keyword-introduced parts (their single-token mutants leave optional parts empty)
+        A("cast.format", 1, "CAST({expr} AS DATE FORMAT " + s("YYYY-MM-DD") + ")"),
+        A("fn.trim_from", 1, "TRIM(BOTH " + s("x") + " FROM {expr})"),
+        A("fn.position", 1, "POSITION({expr} IN {expr})"),
+        A("fn.substring_from", 1, "SUBSTRING({expr} FROM 1 FOR 2)"),
+        A("pred.like_any", 1, "{expr} LIKE ANY (" + s("a") + ", " + s("b") + ")"),
+        A("acc.json_arrow", 1, "{expr} -> " + s("k")),
+        A("fn.at_time_zone", 1, "{expr} AT TIME ZONE " + s("UTC")),
+        A("agg.within_group", 1, "PERCENTILE_CONT(0.5) WITHIN GROUP (ORDER BY {expr})"),
+        A("lit.array", 1, "ARRAY[{expr}, {expr}]"),
+        A("win.ignore_nulls", 1, "FIRST_VALUE({expr} IGNORE NULLS) OVER (ORDER BY {expr})"),
+        A("fn.overlay", 1, "OVERLAY({expr} PLACING " + s("x") + " FROM 1 FOR 2)"),
+        A("pred.similar", 1, "{expr} SIMILAR TO " + s("x")),
+        A("col.quoted_backslash", 1, ident("a\\b")),
+        A("lit.str_backslash", 1, s("a\\b")),
     ]
     for ty in TYPES:
         tg = ty.split("(")[0].lower()
